@@ -134,6 +134,28 @@ def vector_fit(records, lib, validator, on_fail):
         strip = lambda o: {"U": o["U"], "P": o["P"], "W": o["W"]}
         validator.add({"name": "CvFitCurve2", "kv": U, "nodes": a["nodes"], "err": e, "d2": strip(D[1])},
                       c=strip(o1), b=strip(o2), d=strip(D[0]), tag=t1)
+        # 3-D sources (x, x, y) and (y, x, x): the error is that of the worst of the THREE coordinates, wherever it stands;
+        # judged by the same clauses with the first and the last coordinate (the middle one repeats one of them)
+        for first, last in ((o1, o2), (o2, o1)):
+            mid = o1
+            S3 = r.Curve(r.mode.nums(U))
+            C3 = r.Curve(r.mode.nums(first["U"]))
+            C3.ctrlpoints = [np.array([fr(x), fr(y), fr(z)], dtype=object) for x, y, z in zip(first["P"], mid["P"], last["P"])]
+            n += 1
+            try:
+                err3 = S3.fit_curve(C3, nodes) if nodes is not None else S3.fit_curve(C3)
+                e3 = rat(err3) if not isinstance(err3, float) else rat(Fraction(err3))
+                P3 = S3.ctrlpoints
+                coords = [{"U": [rat(x) for x in S3.knotvector], "P": [rat(p[k]) for p in P3], "W": []} for k in range(3)]
+            except Exception as ex:
+                on_fail(t1, [f"fit_curve with 3-D points raised or returned inexact numbers: {type(ex).__name__}: {ex}"])
+                continue
+            same_as = 0 if mid is first else 2
+            if coords[1]["P"] != coords[same_as]["P"]:
+                on_fail(t1, ["fit_curve with 3-D points: two equal source coordinates were fitted differently"])
+                continue
+            validator.add({"name": "CvFitCurve2", "kv": U, "nodes": a["nodes"], "err": e3, "d2": coords[2], "dims": 3},
+                          c=strip(first), b=strip(last), d=coords[0], tag=t1)
     return n
 
 
